@@ -106,7 +106,7 @@ func runC08(c *Ctx) {
 			okG := true
 			for _, gd := range GuardsOf(call) {
 				cmp, isCmp := gd.Cmp()
-				if isCmp && (IsNilConst(cmp.X) || IsNilConst(cmp.Y)) {
+				if isCmp && cmp.Op == token.NEQ && (IsNilConst(cmp.X) || IsNilConst(cmp.Y)) {
 					other := cmp.X
 					if IsNilConst(cmp.X) {
 						other = cmp.Y
